@@ -1460,6 +1460,8 @@ class Norm:
             kwargs = spliced
         while f[0] == "call" and f[1] in (("g", "ext:functools.partial"), ("g", "ext:partial")) and f[2] and not f[3]:
             f, args = f[2][0], list(f[2][1:]) + args        # calling a partial application
+        if f == ("g", "builtin:list") and len(args) == 1 and not kwargs and ((args[0][0] == "new" and args[0][1] == "list") or args[0][0] == "list"):
+            return args[0]          # a copy of a list that was just built is, as a value, that list
         t = self.mk_call(f, args, kwargs, scope)
         if self.on_call is not None:
             r = self.on_call(t, node, scope, (f, args, kwargs))
